@@ -371,6 +371,8 @@ class ViolationGenerator:
 
         # Apply inline ignore directives via IgnoreChecker
         violations = self._ignore_checker.filter_violations(violations)
+        # File contents are cached for this run only: a reused rule must re-read edited files
+        self._ignore_checker.clear_cache()
 
         return violations
 
